@@ -190,6 +190,8 @@ OnStdout(r, ev) ==
   IN /\ Check(r.refuse = "" \/ d.why = "diag", "reject-" \o r.refuse, <<"no diagnostic was produced for a program that must be refused:", r.refuse>>)
      /\ Check(~ev.timeout, "hang", <<"the emulator did not terminate; last phase", d.phase, "index", d.idx>>)
      /\ Check(ev.timeout \/ ev.status = 0, "total", <<"exit status", ev.status>>)
+     \* the assembled program was handed to the data loader and the run ended without a memory image or a diagnostic
+     /\ Check(d.phase # "load", "load", <<"the run ended while the data was being loaded: exit status", ev.status>>)
      /\ Check(ev.timeout \/ d.phase = "done", "control", <<"run ended in phase", d.phase, "index", d.idx>>)
      /\ Check(ev.timeout \/ ev.status # 0 \/ okk, "stdout",
               LET k == FirstDiff(no, ne)
